@@ -78,3 +78,11 @@ Proof.
   cbn [wf_value]. unfold line_ok. repeat split; try (vm_compute; reflexivity);
     intro H; repeat (destruct H as [H|H]; [discriminate H|]); exact H.
 Qed.
+
+From RcProxy Require Model.ClientCodecFast Proofs.ClientCodecFastProofs.
+(* the cdecode correspondence run of this check evaluates `decode_fast` (Model/ClientCodecFast.v,
+   linear-time readers); it is the decoder model `decode` on every input *)
+Theorem C02_evaluated_decoder_is_the_model : forall limit b,
+  RcProxy.Model.ClientCodecFast.decode_fast limit b = RcProxy.Model.ClientCodec.decode limit b.
+Proof. exact RcProxy.Proofs.ClientCodecFastProofs.decode_fast_eq. Qed.
+Print Assumptions C02_evaluated_decoder_is_the_model.
